@@ -1402,3 +1402,52 @@ def validate_parity(ctx):
     else:
         ctx.violation(key, '-', 'the writer stores the delta distance as (distance - 1) in one byte without checking 1 <= distance <= 256: '
                       '0 underflows (panic) and 257.. is truncated to another distance than the one the data was filtered with')
+
+
+@rule('INDEX-SIZE-TWIN', ['C03', 'C02'], floor=1)
+def index_size_twin(ctx):
+    """The XZ stream footer announces the size of the index ("backward size") that a reference decoder uses to
+    find the index from the end of the file. The footer writer derives that size from exactly the quantities
+    the index writer emits: the variable-length integers counted for the backward size are the same
+    expressions, in the same loop structure, as the ones encoded into the index (record count, then per
+    record unpadded size and uncompressed size). A size kept by other means (running sum, cached width)
+    disagrees as soon as a field's encoded width changes (e.g. at 128 records)."""
+    F = ctx.facts
+    ms = methods_of(F, 'XZWriter')
+    enc_sites, cnt_sites = {}, {}
+    for f in ms:
+        prov = None
+        for bi, t, c in f.calls():
+            nm = c.name or ''
+            if 'multibyte' not in nm or not t['args']:
+                continue
+            prov = prov or Prov(f)
+            arg = expr_str(prov.operand(t['args'][0], 0, '%d:T' % bi))
+            inloop = f.in_loop(bi)
+            if nm.startswith('encode'):
+                enc_sites.setdefault(f.key, []).append((arg, inloop, bi))
+            elif nm.startswith('count'):
+                cnt_sites.setdefault(f.key, []).append((arg, inloop, bi))
+    # the index writer: the encoder user that has sites inside a loop over the index records
+    idx = [(k, v) for k, v in enc_sites.items() if any(il and 'index_records' in a for a, il, _ in v)]
+    if not idx:
+        return ctx.anchor_missing('XZ index writer (multibyte integers encoded in a loop over the index records)')
+    wkey, wsites = idx[0]
+    wf = [f for f in ms if f.key == wkey][0]
+    want = sorted((a, il) for a, il, _ in wsites)
+    # the footer writer: stores/writes a value derived from counted sizes; take the function with count sites
+    key = 'XZWriter:backward-size-counts-what-the-index-encodes'
+    cands = [(k, v) for k, v in cnt_sites.items()]
+    if not cands:
+        ctx.violation(key, wf.loc(0), 'the index writer %s encodes %d variable-length integers (%s) but no function computes the index size from '
+                      'the same quantities: the backward size in the stream footer is not derived from what the index contains' % (
+                          wkey, len(want), '; '.join(a[:40] for a, _ in want)))
+        return
+    fkey, fsites = cands[0]
+    ff = [f for f in ms if f.key == fkey][0]
+    got = sorted((a, il) for a, il, _ in fsites)
+    if got == want:
+        ctx.ok(key, ff.loc(fsites[0][2]), '%s counts the same %d integers %s encodes' % (fkey, len(got), wkey))
+    else:
+        ctx.violation(key, ff.loc(fsites[0][2]), 'index writer encodes %s; footer counts %s' % (
+            ['%s%s' % (a[:40], ' (per record)' if il else '') for a, il in want], ['%s%s' % (a[:40], ' (per record)' if il else '') for a, il in got]))
